@@ -1,5 +1,5 @@
 From Coq Require Import List Bool ZArith Lia.
-From V Require Import C01.Model C01.Proofs C06.Model C06.Proofs C06.Search.
+From V Require Import C01.Model C01.Proofs C06.Model C06.Proofs C06.LookAhead C06.Search.
 Import ListNotations.
 Open Scope Z_scope.
 
@@ -17,6 +17,10 @@ Variable tbm : list Z.
 Hypothesis choose_in : forall left cand, left <> [] -> In (choose left cand) left.
 Hypothesis tbm_nodup : NoDup tbm.
 Hypothesis cons_asym : forall a b, In (a, b) cons -> ~ In (b, a) cons.
+(* the candidates the search starts from: any subset of the colour-compatible nodes (colour classes alone, or colour
+   classes thinned out by the look-ahead filter) *)
+Variable base : Z -> list Z.
+Hypothesis base_col : forall u x, In x (base u) -> In x (colour_candidates P G u).
 
 Notation compat := (compat P G cons).
 Notation has_c := (has_c cons).
@@ -44,7 +48,7 @@ Record inv (mp : mapping) (cand : list (Z * list Z)) : Prop := {
   i_good : good mp;
   i_sub : incl (map fst mp) tbm;
   i_cand : forall u, In u (unmapped mp) -> forall x,
-     In x (cand_of cand u) <-> (In x (colour_candidates P G u) /\ forall s g, In (s, g) mp -> compat s g u x = true) }.
+     In x (cand_of cand u) <-> (In x (base u) /\ forall s g, In (s, g) mp -> compat s g u x = true) }.
 
 Lemma in_unmapped mp u : In u (unmapped mp) <-> In u tbm /\ ~ In u (map fst mp).
 Proof.
@@ -81,7 +85,7 @@ Proof.
   - constructor.
     + cbn. constructor; assumption.
     + cbn. constructor; assumption.
-    + intros u x [[= <- <-]|Hin]; [exact Hcol|apply C; exact Hin].
+    + intros u x [[= <- <-]|Hin]; [apply base_col; exact Hcol|apply C; exact Hin].
     + intros s g u x [[= <- <-]|H1] [[= <- <-]|H2] Hne.
       * contradiction.
       * specialize (Hcomp u x H2). apply compat_spec in Hcomp as [Hcomp _]. rewrite ecol_sym, (ecol_sym G). exact Hcomp.
@@ -171,16 +175,17 @@ Qed.
 Lemma map_nodes_complete fuel : forall sgn cand mp f,
   inv mp cand -> In sgn (unmapped mp) -> (List.length (unmapped mp) <= fuel)%nat ->
   good f -> incl mp f -> (forall u, In u tbm <-> In u (map fst f)) ->
+  (forall u x, In (u, x) f -> In x (base u)) ->
   exists f', In f' (map_nodes P G cons choose fuel sgn cand mp tbm) /\ (forall p, In p f <-> In p f').
 Proof.
-  induction fuel as [|fuel IH]; intros sgn cand mp f Hinv Hsgn Hfuel Hgood Hsub Hdom.
+  induction fuel as [|fuel IH]; intros sgn cand mp f Hinv Hsgn Hfuel Hgood Hsub Hdom Hbase.
   - destruct (unmapped mp); [destruct Hsgn|cbn in Hfuel; lia].
   - pose proof (proj1 (in_unmapped mp sgn) Hsgn) as [Ht Hnd].
     assert (Hex : exists gn, In (sgn, gn) f).
     { apply Hdom in Ht. apply in_map_iff in Ht as ([k v] & E & Hin). cbn in E. subst. eauto. }
     destruct Hex as [gn Hgn].
     assert (Hcand : In gn (cand_of cand sgn)).
-    { apply (i_cand _ _ Hinv sgn Hsgn). split; [exact (g_col _ Hgood _ _ Hgn)|]. intros s g Hsg.
+    { apply (i_cand _ _ Hinv sgn Hsgn). split; [exact (Hbase _ _ Hgn)|]. intros s g Hsg.
       assert (Hne : s <> sgn). { intros ->. apply Hnd. apply in_map_iff. exists (sgn, g). auto. }
       apply compat_spec. split; [exact (g_edge _ Hgood _ _ _ _ (Hsub _ Hsg) Hgn Hne)|].
       destruct (has_c s sgn) eqn:E1; [apply has_c_spec in E1; exact (g_cons _ Hgood _ _ _ _ E1 (Hsub _ Hsg) Hgn)|].
@@ -220,14 +225,16 @@ Variable choose : list Z -> list (Z * list Z) -> Z.
 Hypothesis choose_in : forall left cand, left <> [] -> In (choose left cand) left.
 Hypothesis P_nodup : NoDup (keys P).
 Hypothesis cons_asym : forall a b, In (a, b) cons -> ~ In (b, a) cons.
+Variable base : Z -> list Z.
+Hypothesis base_col : forall u x, In x (base u) -> In x (colour_candidates P G u).
 
-Lemma cand_of_initial u : In u (keys P) -> cand_of (initial_candidates P G) u = colour_candidates P G u.
+Lemma cand_of_initial u : In u (keys P) -> cand_of (initial_from P base) u = base u.
 Proof.
-  unfold initial_candidates, cand_of. clear P_nodup. induction (keys P) as [|k r IH]; [intros []|]. cbn.
+  unfold initial_from, cand_of. clear P_nodup. induction (keys P) as [|k r IH]; [intros []|]. cbn.
   destruct (Z.eqb_spec k u) as [->|Hne]; [reflexivity|]. intros [E|H]; [contradiction|apply IH; exact H].
 Qed.
 
-Lemma inv_initial : inv P G cons (keys P) [] (initial_candidates P G).
+Lemma inv_initial : inv P G cons (keys P) base [] (initial_from P base).
 Proof.
   constructor.
   - constructor; try constructor; intros; try contradiction. intros a b x y _ [].
@@ -235,33 +242,48 @@ Proof.
   - intros u Hu x. apply in_unmapped in Hu as [Hu _]. rewrite cand_of_initial by exact Hu. split; [intros H; split; [exact H|intros s g []]|tauto].
 Qed.
 
-Theorem find_isomorphisms_sound f :
-  In f (find_isomorphisms P G cons choose) ->
+Theorem find_from_sound f :
+  In f (find_isomorphisms_from P G cons choose base) ->
   good P G cons f /\ (forall u, In u (keys P) <-> In u (map fst f)).
 Proof.
-  unfold find_isomorphisms. destruct (keys P) as [|k r] eqn:E.
+  unfold find_isomorphisms_from. destruct (keys P) as [|k r] eqn:E.
   - intros [<-|[]]. split; [|intros u; split; intros []]. constructor; try constructor; intros; try contradiction. intros a b x y _ [].
   - intros H. rewrite <- E in *.
-    assert (Hs : In (choose (keys P) (initial_candidates P G)) (unmapped (keys P) [])).
+    assert (Hs : In (choose (keys P) (initial_from P base)) (unmapped (keys P) [])).
     { apply in_unmapped. split; [|intros []]. apply choose_in. rewrite E. discriminate. }
-    destruct (map_nodes_sound P G cons choose (keys P) choose_in cons_asym _ _ _ _ f inv_initial Hs H) as (H1 & _ & H3). auto.
+    destruct (map_nodes_sound P G cons choose (keys P) choose_in cons_asym base base_col _ _ _ _ f inv_initial Hs H) as (H1 & _ & H3). auto.
 Qed.
 
-Theorem find_isomorphisms_complete f :
-  good P G cons f -> (forall u, In u (keys P) <-> In u (map fst f)) ->
-  exists f', In f' (find_isomorphisms P G cons choose) /\ (forall p, In p f <-> In p f').
+Theorem find_from_complete f :
+  good P G cons f -> (forall u, In u (keys P) <-> In u (map fst f)) -> (forall u x, In (u, x) f -> In x (base u)) ->
+  exists f', In f' (find_isomorphisms_from P G cons choose base) /\ (forall p, In p f <-> In p f').
 Proof.
-  intros Hg Hd. unfold find_isomorphisms. destruct (keys P) as [|k r] eqn:E.
+  intros Hg Hd Hb. unfold find_isomorphisms_from. destruct (keys P) as [|k r] eqn:E.
   - exists []. split; [left; reflexivity|]. intros p. split; [|intros []]. intros Hp. destruct p as [u x].
     assert (X : In u (map fst f)) by (apply in_map_iff; exists (u, x); auto). apply Hd in X. destruct X.
   - rewrite <- E in *.
-    apply (map_nodes_complete P G cons choose (keys P) choose_in P_nodup cons_asym); auto.
+    apply (map_nodes_complete P G cons choose (keys P) choose_in P_nodup cons_asym base base_col); auto.
     + apply inv_initial.
     + apply in_unmapped. split; [|intros []]. apply choose_in. rewrite E. discriminate.
     + unfold unmapped. cbn. clear. induction (keys P); cbn; lia.
     + intros p [].
 Qed.
 End Top.
+
+(* colour classes as starting candidates *)
+Theorem find_isomorphisms_sound P G cons choose f :
+  (forall left cand, left <> [] -> In (choose left cand) left) -> NoDup (keys P) ->
+  (forall a b, In (a, b) cons -> ~ In (b, a) cons) ->
+  In f (find_isomorphisms P G cons choose) ->
+  good P G cons f /\ (forall u, In u (keys P) <-> In u (map fst f)).
+Proof. intros H1 H2 H3. apply find_from_sound; auto. Qed.
+
+Theorem find_isomorphisms_complete P G cons choose f :
+  (forall left cand, left <> [] -> In (choose left cand) left) -> NoDup (keys P) ->
+  (forall a b, In (a, b) cons -> ~ In (b, a) cons) ->
+  good P G cons f -> (forall u, In u (keys P) <-> In u (map fst f)) ->
+  exists f', In f' (find_isomorphisms P G cons choose) /\ (forall p, In p f <-> In p f').
+Proof. intros H1 H2 H3 Hg Hd. apply find_from_complete; auto. intros u x Hin. exact (g_col _ _ _ _ Hg u x Hin). Qed.
 
 (* without constraints "good" is "is_common" (graph keys distinct) *)
 Lemma colour_candidates_spec P G u x : NoDup (keys G) ->
@@ -282,4 +304,39 @@ Proof.
   - intros (D & I & C & E). constructor; try assumption.
     + intros u x Hin. apply colour_candidates_spec; [exact Hnd|]. apply C. exact Hin.
     + intros a b x y [].
+Qed.
+
+(* ---------- with the look-ahead filter ---------- *)
+Lemma good_drop P G cons f : good P G cons f -> good P G [] f.
+Proof. intros [D I C E _]. constructor; try assumption. intros a b x y []. Qed.
+
+Lemma la_base_col P G u x : In x (la_base P G u) -> In x (colour_candidates P G u).
+Proof. unfold la_base. destruct (lookahead_candidates P G u); [tauto|]. intros H. apply filter_In in H. tauto. Qed.
+
+Theorem find_isomorphisms_la_sound P G cons choose f :
+  (forall left cand, left <> [] -> In (choose left cand) left) -> NoDup (keys P) ->
+  (forall a b, In (a, b) cons -> ~ In (b, a) cons) ->
+  In f (find_isomorphisms_la P G cons choose) ->
+  good P G cons f /\ (forall u, In u (keys P) <-> In u (map fst f)).
+Proof. intros H1 H2 H3. apply find_from_sound; auto. apply la_base_col. Qed.
+
+(* the filter loses nothing: every isomorphism respecting the constraints is still found *)
+Theorem find_isomorphisms_la_complete P G cons choose f :
+  (forall left cand, left <> [] -> In (choose left cand) left) -> NoDup (keys P) -> NoDup (keys G) ->
+  (forall u v, ecol P u v <> None -> u <> v) ->
+  (forall a b, In (a, b) cons -> ~ In (b, a) cons) ->
+  good P G cons f -> (forall u, In u (keys P) <-> In u (map fst f)) ->
+  exists f', In f' (find_isomorphisms_la P G cons choose) /\ (forall p, In p f <-> In p f').
+Proof.
+  intros H1 HP HG Hloop H3 Hg Hd. apply find_from_complete; auto; [apply la_base_col|].
+  assert (Hiso : is_iso P G f = true).
+  { unfold is_iso. apply andb_true_iff. split; [apply good_is_common; [exact HG|eapply good_drop; exact Hg]|].
+    apply forallb_forall. intros k Hk. apply zmem_in. apply Hd. exact Hk. }
+  intros u x Hin. pose proof (lookahead_never_removes_a_solution P G f u x HP HG Hloop Hiso Hin) as Hla.
+  pose proof (g_col _ _ _ _ Hg u x Hin) as Hcol.
+  assert (HxG : In x (keys G)).
+  { unfold colour_candidates in Hcol. apply in_map_iff in Hcol as (n & <- & Hn). apply filter_In in Hn as [Hn _]. unfold keys. apply (in_map fst). exact Hn. }
+  assert (Hin_la : In x (lookahead_candidates P G u)) by (unfold lookahead_candidates; apply filter_In; auto).
+  unfold la_base. destruct (lookahead_candidates P G u) as [|l0 lr] eqn:El; [destruct Hin_la|].
+  apply filter_In. split; [exact Hcol|]. apply zmem_in. exact Hin_la.
 Qed.
